@@ -205,6 +205,7 @@ def run(res, tier, seed, search):
     else:
         plan = [(f, m) for f in fams for m in modes]
         n = 2000
+    dk.check_blocks(res, rng, 40 if tier == "quick" else 300)
     big_block_case(res, rng)
     warm_start_case(res, rng, "manhattan")
     if tier != "quick":
